@@ -1055,7 +1055,7 @@ class Gen(object):
                 other = rng.choice(list(self.nonce.values()))
                 digest = hashlib.sha1((other if other != self.nonce[cid] else b'\x00\x00\x00\x00') + secret.encode()).digest()
             elif k == 'other-ident':
-                o = rng.choice(list(self.rows))
+                o = rng.choice(list(self.rows)) if self.rows else ident
                 if o != ident:
                     digest = hashlib.sha1(self.nonce[cid] + self.rows[o]['secret'].encode()).digest()
                 else:
